@@ -42,12 +42,24 @@ func baseTypes() []*progen.T {
 	return []*progen.T{progen.IntT, progen.FloatT, progen.StringT, progen.BoolT, progen.MapT, progen.FileT, progen.PathT, txt, bam, tA, tB}
 }
 
+func baseOf(t *progen.T) *progen.T {
+	for t.K == progen.TArray || t.K == progen.TTMap {
+		t = t.Elem
+	}
+	return t
+}
+
 func universe() []*progen.T {
 	var out []*progen.T
 	for _, b := range baseTypes() {
 		out = append(out, b, progen.ArrayOf(b), progen.ArrayOf(progen.ArrayOf(b)))
 		if b.K != progen.TMap {
 			out = append(out, progen.TMapOf(b), progen.TMapOf(progen.ArrayOf(b)), progen.ArrayOf(progen.TMapOf(b)))
+		}
+		if b.K == progen.TInt {
+			// deeper nestings for one base type: depth mismatches below a map or an array of maps
+			out = append(out, progen.TMapOf(progen.ArrayOf(progen.ArrayOf(b))), progen.ArrayOf(progen.ArrayOf(progen.ArrayOf(b))),
+				progen.ArrayOf(progen.TMapOf(progen.ArrayOf(b))))
 		}
 	}
 	return out
@@ -538,7 +550,7 @@ func main() {
 	if !ev.IsWorker() {
 		r.Rule = fmt.Sprintf("all ordered pairs (S, D) of a %d-type universe (11 base types incl. two user file types, a struct and a narrower struct; arrays to depth 2, typed maps, typed maps of arrays, arrays of typed maps) in each of %d binding contexts %v; "+
 			"a reference relation written from the statement decides convertible / not convertible / undecided; accepted programs run on the real runtime at --strict=error with three conforming output valuations (typical, empty collections, null leaves) and every value delivered to the consumer is checked by the reference validator; "+
-			"rejections must carry a position inside the offending statement. quick visits the pairs of the depth<=1 types in all contexts; distinct = distinct (S, D, context); non-trivial = S differs from D", len(U), len(contexts), contexts)
+			"rejections must carry a position inside the offending statement. quick visits the pairs of the depth<=1 types and all pairs of the int-based types up to depth 3 in all contexts; distinct = distinct (S, D, context); non-trivial = S differs from D", len(U), len(contexts), contexts)
 		r.RunWorkers(0)
 		r.Assume("undecided pairs (file<->path, filetype<->other filetype, map->struct, map->map<T>) are checked for run-time soundness only")
 		r.Finish()
@@ -554,7 +566,7 @@ func main() {
 	for _, ctx := range contexts {
 		for _, s := range U {
 			for _, d := range U {
-				if !r.Thorough() && (depth(s) > 1 || depth(d) > 1) {
+				if !r.Thorough() && (depth(s) > 1 || depth(d) > 1) && !(baseOf(s).K == progen.TInt && baseOf(d).K == progen.TInt) {
 					continue
 				}
 				idx++
